@@ -53,12 +53,12 @@ OpPhrase(fam, kind) ==
     [] fam = "float" /\ kind = "greater"          -> ">"
     [] fam = "float" /\ kind = "greater_or_equal" -> ">="
     [] fam = "float" /\ kind = "less_or_equal"    -> "<"    \* float/gen/error.rs: LessOrEqualViolated => "must be less than"
-    [] fam = "float" /\ kind = "less"             -> "<="   \* float/gen/error.rs: LessViolated => "must be less or equal to"
-    [] fam = "string" /\ kind = "len_char_max"    -> "<"    \* "length must be less than {n} character(s)"
-    [] fam = "string" /\ kind = "len_char_min"    -> ">"    \* "length must be more than {n} character(s)"
+    [] fam = "float" /\ kind = "less"             -> "<"    \* "must be less than" (fix 832b759)
+    [] fam = "string" /\ kind = "len_char_max"    -> "<="   \* "length must be at most {n} character(s)"  (fix 832b759)
+    [] fam = "string" /\ kind = "len_char_min"    -> ">="   \* "length must be at least {n} character(s)" (fix 832b759)
 
 \* candidates produced by this model on the current transcription (DESIGN.md section 7, item 7)
-KnownUntruthful ==
-  {<<"float", "less">>, <<"float", "less_or_equal">>, <<"string", "len_char_max">>, <<"string", "len_char_min">>}
+\* (float less_or_equal is pinned by test_suite float::traits::test_trait_from_str_with_validation: known finding)
+KnownUntruthful == {<<"float", "less_or_equal">>}
 
 =============================================================================
